@@ -10,7 +10,7 @@ from vlib import hx
 from props import base
 
 PROP = "C08B"
-PROPS_V = "theories/Props/C08b.v"
+PROPS_V = "theories/Props/C08.v"
 THEOREMS = [
     "C08b_enum_eq_sound", "C08b_enum_neq_sound", "C08b_enum_neq_undeclared_refuted", "C08b_enum_range_op_refuted",
     "C08b_enum_rows_per_zone_wrap_refuted", "C08b_enum_build_ok", "C08b_enum_outside_known",
